@@ -9,9 +9,52 @@
    decoder enforces, and maps are given in canonical (strictly key-sorted)
    form.  Values list the fields of the Go struct in wire order. *)
 From Coq Require Import List NArith Bool Permutation.
+From Coq Require Import String.
 From ELA Require Import lib.Bytes lib.C23_codec model.C23_KeyFrame proof.C23_codec.
+From ELA Require Import model.C23_Fields gen.C23_fields proof.C23_fields.
 Import ListNotations.
 Local Open Scope N_scope.
+
+(* ---- program level, re-proved on every run against the table the translator
+   regenerates from the Go source (gen/C23_fields.v: 32 structs of dpos/state,
+   cr/state, mempool, wallet and the payload structs they embed) *)
+
+(* Every field of every checkpoint / key-frame struct is touched by both
+   Serialize and Deserialize of its struct, or is on the allow-list of
+   deliberately unpersisted fields (model/C23_Fields.v, reasons given there),
+   or is the recorded txpool defect.  A field added to a struct and forgotten
+   in either method makes this fail. *)
+Theorem C23_all_fields_covered :
+  forall f, In f table ->
+    (f_ser f = true /\ f_deser f = true) \/
+    In (f_struct f, f_name f) (map fst allow_list) \/
+    In (f_struct f, f_name f) known_gaps.
+Proof. exact gen_all_fields_covered. Qed.
+Print Assumptions C23_all_fields_covered.
+
+(* the full statement (without the known gap) is false of the current source:
+   txPoolCheckpoint.txnList is serialized and never deserialized *)
+Theorem C23_all_fields_covered_refuted :
+  exists f, In f table /\ f_struct f = "mempool.txPoolCheckpoint"%string /\ f_name f = "txnList"%string /\
+            f_ser f = true /\ f_deser f = false /\ covered f = false.
+Proof. exact gen_txnlist_refuted. Qed.
+Print Assumptions C23_all_fields_covered_refuted.
+
+(* Serialize and Deserialize handle the fields in the same order *)
+Theorem C23_wire_order_agrees : forallb order_ok orders = true.
+Proof. exact gen_orders_agree. Qed.
+Print Assumptions C23_wire_order_agrees.
+
+(* the table is not vacuous: every anchor struct is present with persisted
+   fields; the oracle's skip list is inside the allow-list; every allow-list
+   entry names an existing, really unpersisted field *)
+Theorem C23_table_anchored :
+  forallb (anchor_present table) anchors = true /\
+  forallb (fun p => mem p (map fst allow_list)) oracle_skip = true /\
+  forallb (fun p => existsb (fun f => pair_eqb (key f) p && negb (persisted f)) table)
+          (map fst allow_list ++ known_gaps) = true.
+Proof. exact (conj gen_anchors_present (conj gen_oracle_skip_allowed gen_allow_list_exact)). Qed.
+Print Assumptions C23_table_anchored.
 
 (* ---- decode (encode x) = x, for every iteration order of every map *)
 
